@@ -117,7 +117,7 @@ def run(args):
                 rep.fail(dict(feat, kind="printed-text-rejected", form="analyzed"), {"program": src[:3000], "printed": x["a1"][:3000], "errors": x.get("a2_errs", [])[:4]})
             elif x.get("a2") != x["a1"]:
                 rep.fail(dict(feat, kind="printing-is-no-fixed-point", form="analyzed"), {"program": src[:3000], "first": x["a1"][:3000], "second": x["a2"][:3000]})
-        elif prog is not None and case is not None:
+        elif prog is not None:
             raise C.Machinery("generated program %s is not accepted: %s" % (label, x.get("a1_errs", [])[:2]))
         if not x["accepted"]:
             continue
